@@ -449,7 +449,10 @@ def _fail_if_group_variables_not_constant_within_groups(data):
     for name, col in data.items():
         for level in exogenous_groupings:
             if name.endswith(f"_{level}"):
-                max_value = col.groupby(data[f"{level}_id"]).transform("max")
+                # Rows are persons by position, Series in a dict need not share
+                # their row labels: group by the values of the id column.
+                group_ids = data[f"{level}_id"].to_numpy()
+                max_value = col.groupby(group_ids).transform("max")
                 if not (max_value == col).all():
                     message = format_errors_and_warnings(
                         f"""
